@@ -134,6 +134,27 @@ def harness(name):
             return [body, body], ctx
 
         return make
+    if name.startswith("H6"):
+        # W distinct sources compiled beforehand (fills any bounded cache keyed by source), then T0 rebuilds the
+        # oldest of them while T1 builds a new one
+        W = int(name[3:])
+        from . import c11
+
+        def make():
+            for i in range(W):
+                impl.ExperimentEvaluator(c11.long_text(i))
+            ctx = {"results": {}, "kind": "H6", "texts": [c11.long_text(0), c11.long_text(100000)]}
+
+            def body(text):
+                def run(ex, tid):
+                    b = impl.build(text)
+                    ctx["results"][tid] = ("build", b[1:]) if b[0] != "ok" else [norm(impl.call(b[1], {"uid": u})) for u in (1, "x", 7)]
+
+                return run
+
+            return [body(t) for t in ctx["texts"]], ctx
+
+        return make
     if name == "H5":
         # evaluation only: two threads call one shared evaluator with different units
         def make():
@@ -181,6 +202,18 @@ def harness(name):
 def check(ex, ctx):
     if ex.errors:
         return {"kind": "sched:error", "why": f"a thread died: {ex.errors}"}
+    if ctx["kind"] == "H6":
+        from .. import oracle
+        from ..ref import parse as rp
+
+        for tid, text in enumerate(ctx["texts"]):
+            got = ctx["results"].get(tid)
+            a = rp.parse(text)
+            want = [oracle.expected(a, {"uid": u}) for u in (1, "x", 7)]
+            bad = not isinstance(got, list) or any(oracle.agree(g, w) for g, w in zip(got, want))
+            if bad:
+                return {"kind": "sched:H6", "why": f"thread {tid} constructing {text[:60]!r} after many other sources were compiled: results {short(repr(got), 200)}"}
+        return None
     if ctx["kind"] == "H1":
         for tid, k in enumerate(ctx["keys"]):
             got = ctx["results"].get(tid)
@@ -207,11 +240,13 @@ PLAN = {
     # name -> list of (harness, mode, modules, bound, cap)
     "quick": [("H2", "attr", "core", 99, None), ("H3", "attr", "core", 99, None), ("H4", "attr", "core", 3, None),
               ("H12", "line", "core", 1, None), ("H2", "line", "core", 2, None), ("H3", "line", "core", 2, None), ("H4", "line", "core", 1, None),
-              ("H5", "line", "core", 2, None)],
+              ("H5", "line", "core", 2, None), ("H6_16", "line", "core", 1, None), ("H6_64", "line", "core", 1, None), ("H6_128", "line", "core", 1, None)],
     "thorough": [("H2", "attr", "core", 99, None), ("H3", "attr", "core", 99, None), ("H4", "attr", "core", 99, None),
                  ("H12", "line", "core", 2, None), ("H13", "line", "core", 2, None), ("H2", "line", "core", 3, None), ("H3", "line", "core", 3, None),
                  ("H4", "line", "core", 2, None), ("H5", "line", "core", 3, None), ("H2", "instr", "core", 2, None), ("H3", "instr", "core", 2, None),
-                 ("H5", "instr", "core", 2, None), ("H12", "instr", "core", 1, None)],
+                 ("H5", "instr", "core", 2, None), ("H12", "instr", "core", 1, None),
+                 ("H6_16", "line", "core", 2, None), ("H6_32", "line", "core", 1, None), ("H6_64", "line", "core", 2, None), ("H6_100", "line", "core", 1, None),
+                 ("H6_128", "line", "core", 2, None), ("H6_256", "line", "core", 1, None), ("H6_512", "line", "core", 1, None), ("H6_1024", "line", "core", 1, None)],
 }  # fmt: skip
 
 
